@@ -124,6 +124,7 @@ func redactionAccessorRegion(c *fw.Ctx) map[*ssa.Function]bool {
 func checkC18(c *fw.Ctx) {
 	c.Explanation = "C18 (static): panic obligations. F1: every explicit panic statement of the repository is enumerated and classified from its path condition: caller contract (nil dependency / enum / arity of a local caller's argument), Must/OrPanic helpers (discharged per call site), RoomID.Domain on domainless ids (per call site against the version table), accessor panics (discharged by validator agreement); an unclassified panic fails. F2: every function-valued field of every registered room version is set. F3: the constructors validate exactly what the accessors rely on (spec.NewRoomID for room ids, the same is-create-event predicate in checkRoomID / RoomID / AuthEventIDs, JSON-object content for redaction-based accessors). F4: CanonicalJSONAssumeValid / CompactJSON / SortJSON are only applied to bytes established valid (decoded successfully, produced by encoding/json, sjson or redaction, or the event's stored JSON). F5: interface values read from maps without the ok form are nil-checked before being inserted into hash sets or used as receivers in the resolution code. F6: index and slice operations on remote bytes in the byte-level routines are bounds-guarded or listed with the JSON-validity fact they rely on; a new unguarded one fails."
 	c.NotDecidedClause("absence of all panics: value-range safety of the index expressions the compiler cannot prove (77 sites repo-wide) is only covered for the routines named in F6; nil dereferences in general; stack depth of recursive closures; third-party libraries")
+	checkDomainfulValidator(c)
 	checkF2(c)
 	checkF1(c)
 	checkF3(c)
@@ -212,6 +213,51 @@ func checkF1(c *fw.Ctx) {
 				c.Check(ok, rule, fmt.Sprintf("RoomID.Domain() call in %s is never reached with a domainless room id", fw.FuncName(fn)), c.P.Pos(call.Pos()), why, "RoomID.Domain() may be called on a domainless (v12) room id and panics: "+why)
 			}
 		}
+	}
+}
+
+// checkDomainfulValidator: the per-call-site discharge of RoomID.Domain() rests on the version
+// table saying "ids of this version have a domain"; that is only true of parsed events because
+// the room-id validator of those versions (checkRoomIDV1) refuses an id without a ':' part.
+// spec.NewRoomID alone does not: it accepts the domainless form.
+func checkDomainfulValidator(c *fw.Ctx) {
+	rule := "F1 explicit-panics"
+	fn := mustFunc(c, rule, "checkRoomIDV1")
+	if fn == nil {
+		return
+	}
+	construct := "checkRoomIDV1 refuses room ids without a domain (RoomID.Domain() of a parsed pre-v12 event cannot panic)"
+	isSplit := fw.NameIs("gmsl.checkID", "gmsl.domainFromID", "gmsl.SplitID")
+	calls := fw.AllDeepCalls(fn, stopExported)
+	hasSplit, hasColon := false, false
+	for _, dc := range calls {
+		if isSplit(fw.CalleeName(dc.Call)) {
+			hasSplit = true
+		}
+		for _, a := range dc.Call.Common().Args {
+			if k, ok := a.(*ssa.Const); ok && k.Value != nil && (k.Value.ExactString() == `":"` || k.Value.ExactString() == "58") {
+				hasColon = true
+			}
+		}
+	}
+	switch {
+	case hasSplit:
+		succ := fw.ErrNilSuccess(fn, fw.ErrIndex(fn), nil)
+		g := fw.GuardCallErrNil("the id has a domain part (checkID / SplitID)", isSplit)
+		r := fw.Gate(fn, g, succ)
+		if len(r.Sites)+r.TailSites == 0 {
+			c.Undecided(rule, construct, "the split is performed in a helper of checkRoomIDV1; whether its failure is propagated was not traced")
+			return
+		}
+		if len(r.Escapes) > 0 {
+			c.Fail(rule, construct, c.P.Pos(fw.InstrPos(r.Escapes[0].Ret)), "checkRoomIDV1 can accept an id although splitting it at ':' failed: a domainless id reaches RoomID().Domain(), which panics")
+			return
+		}
+		c.Ok(rule, construct, c.P.Pos(fn.Pos()), "success is gated on the ':' split")
+	case hasColon:
+		c.Undecided(rule, construct, "checkRoomIDV1 looks for ':' in a way the rule does not know")
+	default:
+		c.Fail(rule, construct, c.P.Pos(fn.Pos()), "nothing in checkRoomIDV1 requires a ':' in the id (spec.NewRoomID accepts the domainless form): an event of a pre-v12 room with a domainless room_id parses, and RoomID().Domain() panics in the create-event rule")
 	}
 }
 
